@@ -160,3 +160,18 @@ CONTRACTS.update({
         call_site="opaque",  # callers (the graph-node executors) keep the declared pure method of the object model
     ),
 })
+
+INNER = "self._graph._nodes.values()"
+CONTRACTS.update({
+    GN + "GraphNode.has_signature_default_for": dict(
+        props=["C05", "C19"],
+        params={"self": OBJ("GraphNode"), "param": STR},
+        returns=BOOL,
+        # a wrapper input has a SIGNATURE default exactly when it is an input, its original inner name is not bound inside, some
+        # inner node consumes it and EVERY inner consumer has a signature default for it
+        ensures=["result == (param in self.inputs and " + ORIG + " not in self._graph.inputs.bound"
+                 " and any(" + ORIG + " in n.inputs for n in " + INNER + ")"
+                 " and all(" + ORIG + " not in n.inputs or bool(n.has_signature_default_for(" + ORIG + ")) for n in " + INNER + "))"],
+        modifies=[],
+    ),
+})
